@@ -198,6 +198,7 @@ class VIter(V):
     __slots__ = ("kind", "items", "pos", "src", "extra")
 
     def __init__(self, kind, items=None, pos=0, src=None, extra=None):
+        # pos: int for array iterators, Lin for slice / vec / zip iterators
         self.kind = kind
         self.items = items
         self.pos = pos
